@@ -335,7 +335,11 @@ impl Exec {
     pub async fn event(&mut self, e: &J) {
         let kind = e["e"].as_str().unwrap_or("");
         match kind {
-            "Shifts" => { self.sh = Shifts { out: e["out"].as_u64().unwrap_or(0) as u32, inn: e["inn"].as_u64().unwrap_or(0) as u32, dc_out: e["dc_out"].as_u64().unwrap_or(0) as u32, dc_in: e["dc_in"].as_u64().unwrap_or(0) as u32 }; }
+            "Shifts" => {
+                // TLC integers are 32-bit: shifts near 2^32 are given as decimal strings
+                let g = |k: &str| -> u32 { match &e[k] { J::String(s) => s.parse::<u64>().unwrap_or(0) as u32, v => v.as_u64().unwrap_or(0) as u32 } };
+                self.sh = Shifts { out: g("out"), inn: g("inn"), dc_out: g("dc_out"), dc_in: g("dc_in") };
+            }
             "AOpen" | "AAccept" => {
                 let cfg = &e["cfg"];
                 let (a, b) = tokio::io::duplex(cfg.get("pipe").and_then(|x| x.as_u64()).unwrap_or(1 << 22) as usize);
